@@ -506,9 +506,9 @@ pub fn programs(m: Menu, k: usize) -> Vec<Program> {
                 if target == "schema" && (n > 10_000 || (n > 1_000 && k < 3)) {
                     continue;
                 }
-                let muts = if target == "schema" { crate::demomut::mutations(k.min(2)) } else { crate::demomut::mutations(k) };
+                let muts = crate::demomut::mutation_list(if target == "schema" { k.min(2) } else { k });
                 for index in 0..n {
-                    for mutation in 0..muts {
+                    for mutation in muts.iter().copied() {
                         out.push(Program { menu: m, decls: vec![Decl::DemoMutation { demo: demo.to_string(), target: target.to_string(), index, mutation }] });
                     }
                 }
